@@ -119,7 +119,7 @@ def judge(part, case, resps, ctx):
         sig = {"backend": b, "instance": inst_name, "u": uu["dbg"], "v": vu["dbg"], "kind": kind, "form": form,
                "class": {"kind": kind, "backend": b, "instance": inst_name, "form": form, "u": uu["dbg"], "v": vu["dbg"]}}
         part.violation(sig, "C04 %s: %s [%s] a=%s[%s] b=%s[%s] form=%s: %s" % (kind, b, inst_name, case["x"], uu["dbg"], case["y"], vu["dbg"], form, text),
-                       {"module": "c04", "backend": b, "bin": "x_derived", "case": {k: v for k, v in case.items() if k not in ("first", "first_res")}, "resps": resps})
+                       {"module": "c04", "backend": b, "bin": "x_derived", "case": case, "resps": resps})
 
     if "panic" in resp:
         viol("panic", "request panicked: %s" % resp["panic"])
